@@ -584,10 +584,15 @@ func main() {
 			"a state is non-trivial/distinct by its canonical form (tree with values, balance factors, parent/deleted flags, iterator positions as tree paths); every transition is executed on the implementation by replaying the shortest history on a fresh tree",
 		Assume: []string{"keys outside {0..K-1} behave like keys inside (the code compares keys only)", "iterators that reached their end are not used again", "export overlay accessors are read-only"},
 		Run: func(c *vf.Ctx) {
+			// tree-only exploration reaches larger universes (a seeded change in the
+			// delete rebalancing needed 8 distinct keys: height-4 tree + a specific
+			// shape below a non-root node), live iterators multiply the state space
 			if c.Thorough() {
+				explore(c, 13, 0)
 				explore(c, 10, 1)
 				explore(c, 7, 2)
 			} else {
+				explore(c, 11, 0)
 				explore(c, 7, 1)
 				explore(c, 5, 2)
 			}
